@@ -443,7 +443,8 @@ package graphql
 //@   at[C19] call getFieldsAndFragmentNames: assert arg2 == fragment.SelectionSet
 //@   ensures[C19] calls("getFieldsAndFragmentNames") == 1 ==> result == lastresult("getFieldsAndFragmentNames")
 //@ func ValidationContext.Fragment
-//@   trusted
+//@   props C02
+//@   nosafety
 //@   assigns class:graphql.ValidationContext
 
 // ---- memo tables of the overlapping-fields rule (C02 soundness of memo hits, C19 memo effectiveness) ----
@@ -547,7 +548,8 @@ package graphql
 //@   ensures !isnil(ofType) && !typeis(ofType, "*graphql.NonNull") ==> result.OfType == ofType && result.err == nil
 //@   ensures isnil(ofType) || typeis(ofType, "*graphql.NonNull") ==> isnil(result.OfType) && result.err != nil
 //@ func invariant
-//@   trusted
+//@   props C02
+//@   nosafety
 //@   assigns nothing
 //@   ensures !condition ==> result != nil
 //@ func Schema.Type
@@ -559,17 +561,21 @@ package graphql
 //@   pure
 
 //@ func Schema.Directive
-//@   trusted
+//@   props C02
+//@   nosafety
 //@   assigns nothing
 
 //@ func Schema.QueryType
-//@   trusted
+//@   props C02
+//@   nosafety
 //@   assigns nothing
 //@ func Schema.MutationType
-//@   trusted
+//@   props C02
+//@   nosafety
 //@   assigns nothing
 //@ func Schema.SubscriptionType
-//@   trusted
+//@   props C02
+//@   nosafety
 //@   assigns nothing
 
 //@ func InputObject.Fields
@@ -834,14 +840,17 @@ package graphql
 // ---- planning: one entry per response key, in document order; shared visited set (C01, C13, C19) ----
 
 //@ func planDirectives
-//@   trusted
+//@   props C02
+//@   nosafety
 //@   assigns nothing
 //@ func getFieldEntryKey
-//@   trusted
+//@   props C02
+//@   nosafety
 //@   functional
 //@   assigns nothing
 //@ func getFieldDef
-//@   trusted
+//@   props C02
+//@   nosafety
 //@   assigns nothing
 // C09: unvalidated documents reach planning; a type condition naming an unknown type resolves to
 // a nil Type, which must be answered (no match), not called.
@@ -978,7 +987,8 @@ package graphql
 //@   at call planMergedSelectionsForType: assert arg2 == fp.fieldASTs && arg3 == fp.astPredicates
 //@   ensures old(len(fp.fieldASTs) > 0 && p.expanding[fp.fieldASTs[0]]) && typeis(unwrapNamedType_0(fp.returnType), "*graphql.Object") ==> fp.plannedOnDemand && calls("planMergedSelectionsForType") == 0
 //@ func unwrapNamedType
-//@   trusted
+//@   props C02
+//@   nosafety
 //@   functional
 //@   assigns nothing
 
@@ -1033,7 +1043,8 @@ package graphql
 //@   ensures result1 == nil && !isNullish_0(input) ==> calls("coerceValue") == 1
 //@   ensures result1 == nil && isNullish_0(input) && definitionAST.DefaultValue != nil ==> calls("valueFromAST") == 1
 //@ func IsInputType
-//@   trusted
+//@   props C02
+//@   nosafety
 //@   functional
 //@   assigns nothing
 
@@ -1164,7 +1175,8 @@ package graphql
 // ---- introspection resolvers never write the schema they describe (C10, C07) and list in a defined order (C12) ----
 
 //@ func Enum.Values
-//@   trusted
+//@   props C02
+//@   nosafety
 //@   functional
 //@   assigns nothing
 
@@ -1200,7 +1212,8 @@ package graphql
 //@   loop 3 invariant fieldNames == nil || fresh(fieldNames)
 
 //@ func Schema.TypeMap
-//@   trusted
+//@   props C02
+//@   nosafety
 //@   functional
 //@   assigns nothing
 
@@ -1230,10 +1243,12 @@ package graphql
 
 // writeString/writeByte only feed the hash.Hash (assumed not to touch the AST).
 //@ func fingerprintWriter.writeString
-//@   trusted
+//@   props C02
+//@   nosafety
 //@   assigns nothing
 //@ func fingerprintWriter.writeByte
-//@   trusted
+//@   props C02
+//@   nosafety
 //@   assigns nothing
 //@ func fingerprintWriter.writeValue
 //@   trusted
@@ -1430,7 +1445,8 @@ package graphql
 //@   loop 1 ensures calls("f") > atloop(1, calls("f")) && (typeis(lastresult("f"), "map[string]interface{}") || typeis(lastresult("f"), "[]interface{}")) ==> calls("push") == atloop(1, calls("push")) + 1
 //@   loop 1 ensures calls("f") == atloop(1, calls("f")) && (typeis(v, "map[string]interface{}") || typeis(v, "[]interface{}")) ==> calls("push") == atloop(1, calls("push")) + 1
 //@ func dethunkQueue.push
-//@   trusted
+//@   props C02
+//@   nosafety
 //@ func dethunkMapWithBreadthFirstTraversal
 //@   props C09
 //@   nosafety
@@ -1440,7 +1456,8 @@ package graphql
 // The visitor callback of each uniqueness rule reports an error exactly when the name was recorded
 // before, records it otherwise, and the located nodes are the earlier and the current name.
 //@ func reportError
-//@   trusted
+//@   props C02
+//@   nosafety
 //@   assigns class:graphql.ValidationContext, class:E|
 //@ func UniqueFragmentNamesRule$2
 //@   props C02
@@ -1530,7 +1547,8 @@ package graphql
 //@   ensures typeis(p.Node, "*ast.Field") && as(p.Node, "*ast.Field") != nil ==> calls("Type") == 1
 //@   ensures calls("Type") == 0 ==> calls("reportError") == 0
 //@ func IsLeafType
-//@   trusted
+//@   props C02
+//@   nosafety
 //@   functional
 //@   assigns nothing
 //@ func IsCompositeType
@@ -1562,7 +1580,8 @@ package graphql
 // error is located at the literal. DefaultValuesOfCorrectType: likewise for a variable's default against the
 // variable's type, plus one report for a default on a non-null variable.
 //@ func ValidationContext.Argument
-//@   trusted
+//@   props C02
+//@   nosafety
 //@   assigns nothing
 //@ func ValidationContext.InputType
 //@   trusted
@@ -1607,13 +1626,15 @@ package graphql
 // PossibleFragmentSpreads: a fragment (inline, or spread by name) is reported exactly when its type and the
 // parent type are both known and cannot overlap; located at the fragment / the spread.
 //@ func doTypesOverlap
-//@   trusted
+//@   props C02
+//@   nosafety
 //@   assigns nothing
 //@ func getFragmentType
 //@   trusted
 //@   assigns nothing
 //@ func ValidationContext.ParentType
-//@   trusted
+//@   props C02
+//@   nosafety
 //@   assigns nothing
 //@ func PossibleFragmentSpreadsRule$1
 //@   props C02 C18
@@ -1640,7 +1661,8 @@ package graphql
 // whose position type is known is judged: the variable's effective type must be a subtype of the position's
 // type, and the error is located at the definition and at the usage.
 //@ func isTypeSubTypeOf
-//@   trusted
+//@   props C02
+//@   nosafety
 //@   assigns nothing
 //@ func effectiveType
 //@   props C02
@@ -1681,10 +1703,12 @@ package graphql
 // non-null type for which no argument of that name is written is reported once, located at the field (directive);
 // arguments that are written, and nullable ones, are not reported.
 //@ func ValidationContext.FieldDef
-//@   trusted
+//@   props C02
+//@   nosafety
 //@   assigns nothing
 //@ func ValidationContext.Directive
-//@   trusted
+//@   props C02
+//@   nosafety
 //@   assigns nothing
 //@ func ProvidedNonNullArgumentsRule$1
 //@   props C02 C18
@@ -1779,7 +1803,8 @@ package graphql
 // operation); on leaving it every usage (also inside spread fragments) of a name that is not recorded is
 // reported, located at the usage and at the operation.
 //@ func UndefinedVarMessage
-//@   trusted
+//@   props C02
+//@   nosafety
 //@   assigns nothing
 //@ func NoUndefinedVariablesRule$1
 //@   props C02
@@ -1805,7 +1830,8 @@ package graphql
 // on leaving it the names used anywhere in it (also in spread fragments) are marked, and every collected
 // definition whose name is not marked is reported, located at the definition.
 //@ func UnusedVariableMessage
-//@   trusted
+//@   props C02
+//@   nosafety
 //@   assigns nothing
 //@ func NoUnusedVariablesRule$1
 //@   props C02
@@ -1891,10 +1917,12 @@ package graphql
 //@   at return: assert calls("GetKind") >= 1 && kind == kinds.OperationDefinition && typeis(appliedTo, "*ast.OperationDefinition") && as(appliedTo, "*ast.OperationDefinition").Operation == ast.OperationTypeMutation ==> result == DirectiveLocationMutation
 //@   at return: assert calls("GetKind") >= 1 && kind == kinds.OperationDefinition && typeis(appliedTo, "*ast.OperationDefinition") && as(appliedTo, "*ast.OperationDefinition").Operation == ast.OperationTypeSubscription ==> result == DirectiveLocationSubscription
 //@ func MisplaceDirectiveMessage
-//@   trusted
+//@   props C02
+//@   nosafety
 //@   assigns nothing
 //@ func Schema.Directives
-//@   trusted
+//@   props C02
+//@   nosafety
 //@   assigns nothing
 //@ func KnownDirectivesRule$1
 //@   props C02 C18
@@ -1917,7 +1945,8 @@ package graphql
 // spread whose fragment is on the current path is reported with the spreads of the cycle followed by that
 // spread; the path is restored when the search of a fragment returns.
 //@ func CycleErrorMessage
-//@   trusted
+//@   props C02
+//@   nosafety
 //@   assigns nothing
 //@ func ValidationContext.FragmentSpreads
 //@   trusted
